@@ -165,6 +165,36 @@ def check(pid, tier, seed):
         for tid in dt[:3]:
             out.drift.append(f'Notifications state deviates from NotifyClass.tla on trace {tid}: '
                              f'{[(s["ev"], s["h"]) for s in traces[tid - 1]["steps"]]}')
+        # (ii) the environment model from the other side: boundary call sequences recorded in full-stack runs
+        # (real BlockProcessor, MemPool, SessionManager start-up) must be behaviours of the model of the callers;
+        # TLC infers the silent block-processor / daemon / refresh steps between the logged calls
+        if not quick:
+            from harness.clientrun import ClientRun
+            from harness.props.client import random_schedule
+            import logging
+            logging.disable(logging.CRITICAL)
+            btraces = []
+            for k in range(2):
+                r = ClientRun({'kind': 'random', 'ops': random_schedule(random.Random(seed * 10 + k), 40)})
+                r.run()
+                b = [e for e in r.boundary if e['ev'] in ('mp', 'blk', 'start')][:24]
+                base = min(e['h'] for e in b)
+                btraces.append([{'ev': e['ev'], 'h': e['h'] - base} for e in b])
+            maxh = max(e['h'] for t in btraces for e in t)
+            sc.write('E.cfg', f'CONSTANTS MaxH = {maxh + 1} MaxCalls = 40 Variant = "fixed" Record = FALSE FreeEnv = FALSE\n'
+                     'SPECIFICATION TSpec\nINVARIANT NotConsumed\nCHECK_DEADLOCK FALSE\n')
+            try:
+                res3, consumed = validate_traces(sc, 'NotifyEnvTrace', 'E.cfg', btraces, workers=12, timeout=2400, name='env.json')
+                ok = sorted({f['tid'] for f in consumed})
+                out.add(env_traces_accepted=len(ok), env_traces=len(btraces))
+                if len(ok) != len(btraces):
+                    raise MachineryError(f'environment-model defect: boundary call sequences {set(range(1, len(btraces) + 1)) - set(ok)} '
+                                         f'recorded on the full stack are not behaviours of the callers modelled in Notify.tla: {btraces}')
+            except MachineryError as e:
+                if 'timed out' in str(e):
+                    out.notes.append('environment trace validation did not finish within its time limit (not a verdict)')
+                else:
+                    raise
         for t in traces[:2] + traces[-1:]:
             out.sample({'src': t['src'], 'calls': [(s['ev'], s['h'], s['toks']) for s in t['steps']],
                         'notifications': [(s['nh'], s['ntoks']) for s in t['steps']]})
